@@ -320,6 +320,12 @@ def case_driver(col, p):
         one = dict(kw)
         one['theta0'] = as_func(theta0)
         variants['theta_func'] = one
+        frozen = p.get('frozen')
+        if frozen:
+            # frozen populations: no reference here (C04 owns that clause), but the constant and the time-dependent driver must still agree
+            for vv in variants.values():
+                for k_, fz in enumerate(frozen):
+                    vv['frozen%d' % (k_ + 1) if d > 1 else 'frozen'] = bool(fz)
         drv = _driver(d)
         inputs = [('zero', np.zeros(shape))]
         lo, hi = p.get('units', (0, N))
@@ -328,7 +334,7 @@ def case_driver(col, p):
             e[j] = 1.0
             inputs.append(('unit%d' % j, e.reshape(shape)))
         for name, phi0 in inputs:
-            ref = _ref_step(phi0, xx, d, T, nus, mig, gammas, hs, theta0, delj, beta=beta if d == 1 else None) if not multistep else None
+            ref = _ref_step(phi0, xx, d, T, nus, mig, gammas, hs, theta0, delj, beta=beta if d == 1 else None) if not (multistep or frozen) else None
             scale = max(1.0, np.abs(ref).max()) if ref is not None else max(1.0, float(np.abs(phi0).max()))
             outs = {}
             for vname, kws in variants.items():
@@ -339,7 +345,7 @@ def case_driver(col, p):
                     continue
                 col.tick(transitions=1)
                 outs[vname] = out
-                if multistep:
+                if multistep or frozen:
                     continue
                 err = np.abs(out - ref).max()
                 tol = (1e-9 if delj else 1e-10) * scale
@@ -347,6 +353,19 @@ def case_driver(col, p):
                     col.violation('C02:driver%d:%s:vs_scheme' % (d, vname), dict(p, input=name), {'maxerr': float(err), 'scale': float(scale)})
                 else:
                     col.observe('driver_vs_scheme', err / tol)
+            if 'const' in outs and d >= 2:
+                # the same density as a transposed (non-contiguous) view, as PhiManip.reorder_pops hands it over
+                perm = list(range(1, d)) + [0]
+                inv = list(np.argsort(perm))
+                view = np.ascontiguousarray(phi0.transpose(perm)).transpose(inv)
+                try:
+                    outv = drv(view, xx, T, **variants['const'])
+                    col.tick(transitions=1)
+                    ev = float(np.abs(np.asarray(outv) - outs['const']).max())
+                    if not ev <= 1e-12 * scale:
+                        col.violation('C02:driver%d:noncontiguous_density' % d, dict(p, input=name), {'maxdiff': ev, 'scale': float(scale)})
+                except Exception as e:
+                    col.violation('C02:driver%d:noncontiguous_density:raises' % d, dict(p, input=name), '%s: %s' % (type(e).__name__, e))
             if 'const' in outs:
                 for vname, out in outs.items():
                     if vname == 'const':
@@ -359,7 +378,8 @@ def case_driver(col, p):
         col.tick(states=len(inputs), traces=len(inputs))
     finally:
         Integration.timescale_factor, Integration.use_delj_trick = old
-    col.distinct('nontrivial', ('driver', d, G, p['grid'], tuple(nus), tuple(gammas), T, delj, tuple(p.get('units', ())), multistep, json.dumps(p['mig'])[:80]))
+    col.distinct('nontrivial', ('driver', d, G, p['grid'], tuple(nus), tuple(gammas), T, delj, tuple(p.get('units', ())), multistep, json.dumps(p['mig'])[:80],
+                                tuple(frozen or ())))
 
 
 def case_driver_varying(col, p):
@@ -610,6 +630,17 @@ def run(ctx):
                               mig=[], theta0=1.0, T=1.0, tf=1e-2, delj=0, grid='D', multistep=True))
     cases.append(dict(kind='driver', d=1, G=6, seed=ctx.seed, units=(0, 6), nus=[4.0], gammas=[30.0], hs=[0.2], mig=[], theta0=1.0, T=1.0, tf=1e-2, delj=0, grid='D',
                       multistep=True, beta=1.0))
+    # every frozen pattern (no migration into or out of frozen populations): constant and time-dependent drivers agree
+    for d, G in ((2, 4), (3, 3), (4, 3), (5, 3)):
+        for fr in itertools.product((0, 1), repeat=d):
+            if not any(fr) or all(fr):
+                continue
+            if d >= 4 and sum(fr) != 1:
+                continue
+            unf = [k_ for k_ in range(d) if not fr[k_]]
+            mig = [((a_, b_), 0.4 + 0.3 * a_ + 0.1 * b_) for a_ in unf for b_ in unf if a_ != b_]
+            cases.append(dict(kind='driver', d=d, G=G, seed=ctx.seed, units=(0, min(G ** d, 8)), nus=[2.0, 1.5, 3.0, 2.5, 1.2][:d], gammas=[1.0, -2.0, 0.5, -1.0, 1.5][:d],
+                              hs=[0.2, 0.5, 0.7, 0.4, 0.3][:d], mig=mig, theta0=1.0, T=1.0, tf=1e-2, delj=0, grid='D', multistep=True, frozen=list(fr)))
     # parameters that change in time, one family at a time and all together
     for d, G in ((1, 6), (2, 4), (3, 3), (4, 3), (5, 3)):
         mig = [((a_, b_), 0.4 + 0.3 * a_ + 0.1 * b_) for a_ in range(d) for b_ in range(d) if a_ != b_]
